@@ -444,6 +444,13 @@ def c04(ctx):
 
 
 def c05(ctx):
+    res = _c05(ctx)
+    if not ctx.get('replay'):
+        id_sweep(ctx, res, 'C05')
+    return res
+
+
+def _c05(ctx):
     def extra(ctx):
         if ctx['tier'] == 'quick':
             depth, alph_w = 4, (1,)
@@ -467,7 +474,56 @@ def c05(ctx):
                    extra=extra, profiles=(3, 2, 3, 2))
 
 
+def id_sweep(ctx, res, prop):
+    """every packet identifier, 1..65535, in one segment per packet kind (real code only -- the model's receive loop is quadratic in the
+    segment length -- against expectations computed here from the property text): inbound PUBLISH at QoS 1 is acknowledged with PUBACK under
+    the identifier it carries and delivered once; at QoS 2 it is answered with PUBREC, and the PUBREL releases exactly that message once and
+    is answered with PUBCOMP; an acknowledgement settles the request that carries its identifier and no other, whatever the other 65534 are"""
+    ids = list(range(1, 65536))
+    H = lambda i: '%04x' % i
+    for ver in (('311',) if ctx['tier'] == 'quick' else ('311', '31')):
+        pre = ['factory 3', 'build a0', 'sethandlers 0 7', 'connect 0 %s 0 %s 1' % (s_tok('c'), ver), 'recv 0 20020000', 'setwin 0 16']
+        if prop == 'C06':
+            steps = [('recv 0 ' + hx(b''.join(publish_pkt('t', b'', 1, mid=i) for i in ids)),
+                      [x for i in ids for x in ('w 0 4002' + H(i), 'pub 0 74 - 1 0 0 %d' % i)]),
+                     ('recv 0 ' + hx(b''.join(publish_pkt('u', b'\x07', 2, mid=i) for i in ids)), ['w 0 5002' + H(i) for i in ids]),
+                     ('recv 0 ' + hx(b''.join(ack(0x62, i) for i in reversed(ids))),
+                      [x for i in reversed(ids) for x in ('pub 0 75 07 2 0 0 %d' % i, 'w 0 7002' + H(i))]),
+                     ('recv 0 ' + hx(b''.join(ack(0x62, i) for i in ids)), ['w 0 7002' + H(i) for i in ids])]
+        else:
+            pre += ['publish 0 %s b:41 1 0' % s_tok('a'), 'publish 0 %s b:42 2 0' % s_tok('b'), 'publish 0 %s b:43 2 0' % s_tok('c'), 'recv 0 50020003',
+                    'subscribe 0 %s 1' % s_tok('s'), 'unsubscribe 0 %s' % s_tok('u')]
+            # identifiers: publishes 1, 2, 3 (3 in the release phase), subscribe 4, unsubscribe 6 (it draws two)
+            rel = '62' if ver == '311' else '62'
+            steps = [('recv 0 ' + hx(b''.join(ack(0x40, i) for i in ids)), ['fired 1 ok i1']),
+                     ('recv 0 ' + hx(b''.join(ack(0x50, i) for i in ids)), ['w 0 %s020002' % rel]),
+                     ('recv 0 ' + hx(b''.join(ack(0x70, i) for i in ids)), ['fired 2 ok i2', 'fired 3 ok i3']),
+                     ('recv 0 ' + hx(b''.join(ack(0xB0, i) for i in ids)), ['fired 5 ok i6']),
+                     ('recv 0 ' + hx(b''.join(suback(i, [1]) for i in ids)), ['fired 4 ok g1'])]
+        tr = realworld.run_scenario(pre + [l for l, _ in steps])
+        for (line, want), (op, obs) in zip(steps, tr[len(pre):]):
+            got = [o for o in obs if o.split()[0] in ('w', 'pub', 'fired', 'esc', 'abort')]
+            res.evaluations += 1; res.programs += 1
+            if prop != 'C06' and want and want[0].startswith('fired') and got and got[0].startswith('fired'):
+                # the value a SUBACK Deferred carries is printed by the harness in its own format: compare outcome and Deferred only
+                got = [' '.join(g.split()[:3]) for g in got]; want = [' '.join(g.split()[:3]) for g in want]
+            if got != want:
+                k = next((j for j, (a, b) in enumerate(zip(got, want)) if a != b), min(len(got), len(want)))
+                res.violations.append(dict(signature='%s id-sweep' % prop, scenario=pre + [l[:60] + '...' for l, _ in steps],
+                                           what='%s: with every identifier 1..65535 in one segment (%s..., version %s) the client did %d things, expected %d; first difference at %d: got %s, expected %s'
+                                                % (prop, line[:16], ver, len(got), len(want), k, got[k:k + 2], want[k:k + 2])))
+                break
+    res.extra['identifier_sweeps'] = True
+
+
 def c06(ctx):
+    res = _c06(ctx)
+    if not ctx.get('replay'):
+        id_sweep(ctx, res, 'C06')
+    return res
+
+
+def _c06(ctx):
     return generic('C06', ctx, 300, 8000, 60,
                    'corpus; seeded walks of inbound PUBLISH (QoS x DUP x RETAIN, reused and distinct ids, payload 0..300 B, non-ASCII topics), PUBREL known/unknown/repeated, '
                    'interleaved exchanges, loss + rebuild (clean and persistent) at every point of an exchange',
